@@ -197,6 +197,10 @@ def cpu_plan(family, n_quick, n_thorough, rule, design=(), extra_runs=(), exhaus
                              "args": [family, "--seed", str(sd), "--n", str(n)]})
         for er in extra_runs:
             runs.append(er(tier, seed))
+        if family in ("intr", "ports"):
+            # calling-context probes (flags, argument registers, red zone, repeated calls) around the wrappers
+            for prof in ("dev", "rel"):
+                runs.append({"name": "ctx%d" % seed, "prof": prof, "args": ["ctx", "--seed", str(seed)]})
         dz = [dict(d) for d in design]
         if tier == "thorough":
             dz += [{"module": d["module"], "cfg": d["cfg"].replace("tlbq", "tlb"), "workers": 16, "timeout": 7200, "xmx": "16g"}
